@@ -11,9 +11,13 @@ from .pysrc import dotted
 
 SAFE = {"hasattr": hasattr, "getattr": getattr, "dict": dict, "zip": zip, "tuple": tuple, "set": set, "sorted": sorted, "max": max,
         "min": min, "any": any, "all": all, "print": lambda *a, **k: None, "list": list, "range": range, "sum": sum, "int": int, "float": float, "str": str, "bool": bool, "len": len, "isinstance": isinstance, "abs": abs, "repr": repr, "type": type}
-EXC = {"ValueError": ValueError, "TypeError": TypeError, "KeyError": KeyError, "AttributeError": AttributeError, "Exception": Exception,
+EXC = {"NotImplementedError": NotImplementedError, "IndexError": IndexError, "RuntimeError": RuntimeError, "ValueError": ValueError, "TypeError": TypeError, "KeyError": KeyError, "AttributeError": AttributeError, "Exception": Exception,
        "OverflowError": OverflowError}
 TYPES = {"str": str, "int": int, "float": float, "bool": bool, "list": list, "tuple": tuple, "dict": dict}
+
+
+class LoopBound(Unsupported):
+    """a while loop of the evaluated code ran 10 000 iterations on a stand-in input of a handful of elements"""
 
 
 class _Break(Exception):
@@ -175,6 +179,29 @@ class TinyExec:
                         break
                 else:
                     self.run(st.orelse, env, so)
+            elif isinstance(st, ast.Raise):
+                if st.exc is None:
+                    raise Unsupported("bare raise")
+                exc = self.ev(st.exc, env, so)
+                if isinstance(exc, type) and issubclass(exc, BaseException):
+                    exc = exc()
+                if not isinstance(exc, BaseException):
+                    raise Unsupported("raise of a non-exception")
+                raise exc
+            elif isinstance(st, ast.While):
+                n_it = 0
+                while self.ev(st.test, env, so):
+                    n_it += 1
+                    if n_it > 10000:
+                        raise LoopBound("loop bound")
+                    try:
+                        self.run(st.body, env, so)
+                    except _Continue:
+                        continue
+                    except _Break:
+                        break
+                else:
+                    self.run(st.orelse, env, so)
             elif isinstance(st, ast.Break):
                 raise _Break()
             elif isinstance(st, ast.Continue):
@@ -224,6 +251,8 @@ class TinyExec:
                 return env[n.id]
             if n.id in TYPES:
                 return TYPES[n.id]
+            if n.id in EXC:
+                return EXC[n.id]
             if n.id in ("True", "False", "None"):
                 return {"True": True, "False": False, "None": None}[n.id]
             if n.id in self.stubs:
@@ -327,6 +356,8 @@ class TinyExec:
                 return env[d](*args, **kwargs)
             if d in SAFE:
                 return SAFE[d](*args, **kwargs)
+            if d in EXC:
+                return EXC[d](*args)
             if d == "enumerate":
                 return list(enumerate(*args))
             if isinstance(n.func, ast.Name) and self._modfunc(d) is not None and d not in env:
